@@ -2,6 +2,7 @@ package main
 
 import (
 	"fmt"
+	"go/constant"
 	"go/token"
 	"go/types"
 	"sort"
@@ -23,9 +24,11 @@ func init() {
 func checkC18(c *Ctx, r *Report) {
 	r.Explanation = "Acquire/release discipline decided on go/ssa for every path: (R1) every connection obtained from sm.Client.Dial* in module code is closed on every path from the successful dial to a return (explicitly or by defer), or handed to the caller, or cached in a field behind a dial-once test; (R2) no `go` statement is reachable from a request handler in module code, so a completed request leaves no task of the module behind. go-diameter starts one watchdog/reader goroutine per dialled connection and ends it when the connection closes (trusted), so R1 bounds those too."
 	r.Undecided = []string{"actual connection/goroutine counts over time (library internals trusted)", "TIME_WAIT sockets of closed connections"}
-	r.Trusted = append(r.Trusted, "go-diameter ties its per-connection goroutines (reader, watchdog) to the connection's lifetime", "go-diameter sm.(*Client).dwr closes the connection after WatchdogInterval + (MaxRetransmits+1) x RetransmitInterval without a DWA (read from diam/sm/client.go)")
+	r.Trusted = append(r.Trusted, "go-diameter ties its per-connection goroutines (reader, watchdog) to the connection's lifetime", "go-diameter ends sm.(*Client).watchdog only on the connection's CloseNotify, and conn.closeNotify installs the notifying copy routine at the next Read (read from diam/sm/client.go and diam/server.go, v3.0.2; reproduced: 15 timed-out requests left 15 watchdog goroutines)", "go-diameter sm.(*Client).dwr closes the connection after WatchdogInterval + (MaxRetransmits+1) x RetransmitInterval without a DWA (read from diam/sm/client.go)")
 	r.rule("C18.R1", "every dialled Diameter connection is closed on all paths (by Close or by a helper that closes it on all of its paths), returned to a caller that does, or cached behind a dial-once guard", 1)
 	r.rule("C18.R2", "no go statement reachable from a request handler in module code", 1)
+	r.rule("C18.R4", "no watchdog goroutine is started for a per-request connection (go-diameter does not end it when the connection is closed before its first message after the handshake)", 2)
+	r.rule("C18.R5", "the answer handlers cannot block: a handler parked on the hand-over channel is a task left behind for ever (shared with C19.R2)", 2)
 	r.rule("C18.R3", "the connection watchdog cannot give up before the request's own time-out (constants of the sm.Client literals vs the client functions' time.After)", 2)
 
 	ndial := 0
@@ -56,6 +59,7 @@ func checkC18(c *Ctx, r *Report) {
 	}
 	r.count("dial_sites", ndial)
 	c18WatchdogOutlivesRequest(c, r, "C18.R3")
+	r.shareFrom(c, checkC19, map[string]string{"C19.R2": "C18.R5"})
 
 	// R2
 	entries := httpEntries(c)
@@ -268,6 +272,7 @@ func checkC19(c *Ctx, r *Report) {
 	r.rule("C19.R2", "the Diameter answer handler cannot block for ever on the hand-over channel", 2)
 	r.rule("C19.R4", "the connection of a request that gives up is closed on every path (an abandoned request's answer cannot be delivered later; shared with C18.R1)", 2)
 	r.rule("C19.R6", "a client function cannot wait for ever: every blocking select has a time-out case, and no bare receive waits on a channel that lives longer than the call (a per-subscriber timer that already fired and was consumed never delivers again)", 4)
+	r.rule("C19.R7", "the exchange with a peer runs under the subscriber's lock: consistent lockset of the per-subscriber state, lock held to the end of the operation (shared with C09.R1/R2) - otherwise two operations of one subscriber take each other's answers from the shared channel", 10)
 	r.rule("C19.R5", "each client waits on, and empties before it sends, the very channel its own answer handler delivers into", 6)
 	r.rule("C19.R3", "the per-subscriber answer channel has one kind of receiver: the client function that sent the request", 2)
 
@@ -342,6 +347,7 @@ func checkC19(c *Ctx, r *Report) {
 	c19SingleConsumer(c, r, "C19.R3")
 	c19OwnChannel(c, r, "C19.R5")
 	c19BoundedWaits(c, r, "C19.R6")
+	r.shareFrom(c, checkC09, map[string]string{"C09.R1": "C19.R7", "C09.R2": "C19.R7"})
 
 	// R4: as long as answers are not correlated (R1), what keeps the answer of a
 	// timed-out request away from the subscriber's next request is that the
@@ -492,10 +498,21 @@ func c19BoundedWaits(c *Ctx, r *Report, rule string) {
 					return
 				}
 				timed := false
+				long := ""
 				for _, st := range x.States {
 					if st.Dir == types.RecvOnly && isTimerChan(f, st.Chan, false) {
 						timed = true
+						// the property is stated for the 5 s client time-out
+						if call, ok := stripConv(st.Chan).(*ssa.Call); ok && len(call.Call.Args) == 1 {
+							if d, ok := constInt(call.Call.Args[0]); ok && d > 5e9 {
+								long = fmt.Sprintf("the wait for the answer times out after %.0f s, not after the 5 s the clients are specified with: a lost answer holds the subscriber (and its lock) that long, and an answer delayed beyond 5 s is still taken", float64(d)/1e9)
+							}
+						}
 					}
+				}
+				if timed && long != "" {
+					r.viol(rule, key, posOf(c, ins), long)
+					return
 				}
 				r.check(timed, rule, key, posOf(c, ins), "blocking select with a time-out case", "a blocking select without a time-out case: when the answer is lost the request never completes and keeps the subscriber locked")
 			case *ssa.UnOp:
@@ -675,6 +692,8 @@ func c18WatchdogOutlivesRequest(c *Ctx, r *Report, rule string) {
 	// time-out of the request, per client member used for dialling
 	timeoutOf := map[string]int64{}
 	whereOf := map[string]string{}
+	dialCall := map[string]*ssa.Call{}
+	dialFn := map[string]*ssa.Function{}
 	// per function (with the module functions it calls, three levels deep): does it dial, and
 	// the shortest constant time-out it waits with
 	type waitInfo struct {
@@ -749,6 +768,9 @@ func c18WatchdogOutlivesRequest(c *Ctx, r *Report, rule string) {
 				}
 				if p, ok := pathOf(a); ok && len(p.Elems) > 0 && typeIs(p.Root.Type(), ctxPath, "ChfUe") {
 					member = p.Elems[len(p.Elems)-1]
+					if dc, isCall := call.(*ssa.Call); isCall && dialsHere {
+						dialCall[member], dialFn[member] = dc, f
+					}
 				}
 			}
 		})
@@ -785,7 +807,22 @@ func c18WatchdogOutlivesRequest(c *Ctx, r *Report, rule string) {
 			}
 			n++
 			key := fmt.Sprintf("%s|sm.Client %s", fnKey(f), member)
-			if sts := storesToField(al, "EnableWatchdog"); len(sts) == 0 {
+			enabled := false
+			for _, st := range storesToField(al, "EnableWatchdog") {
+				if k, ok := st.Val.(*ssa.Const); !ok || k.Value == nil || constant.BoolVal(k.Value) {
+					enabled = true
+				}
+			}
+			// R4: a watchdog on a connection that lives for one request
+			if dc := dialCall[member]; dc != nil {
+				perRequest := false
+				if ok, why := connReleased(c, dialFn[member], dc); ok && strings.HasPrefix(why, "closed on every path") {
+					perRequest = true
+				}
+				r.check(!(enabled && perRequest), "C18.R4", key, posOf(c, al), "no watchdog task is started for a connection that is closed at the end of the request that dialled it",
+					"the client starts go-diameter's watchdog goroutine for every connection it dials (EnableWatchdog), and "+shortFn(dialFn[member])+" closes the connection at the end of the request: go-diameter ends that goroutine only through the connection's close notification, which is not delivered when the connection is closed before a message was read from it after the handshake (diam/server.go closeNotify: the notifying copy routine is installed at the next Read) - every request that times out or fails before its answer leaves one goroutine that wakes up every WatchdogInterval for ever")
+			}
+			if !enabled {
 				r.proven(rule, key, posOf(c, al), "watchdog not enabled for this client")
 				return
 			}
